@@ -211,6 +211,8 @@ def server_run(cfg, tmax, exact, seed, workdir, nreq_rng, yield_site):
     # events for TLC: crit_b/crit_e, step_b/step, serve_b/serve_e, ce_sync_b/e, fin_sync_b/e in emission order
     ev = []
     si = 0
+    unmatched_events = 0
+    skipped_bodies = []
     crit_seen = False
     for name, seq, a in raw:
         if name == "crit_b":
@@ -220,15 +222,27 @@ def server_run(cfg, tmax, exact, seed, workdir, nreq_rng, yield_site):
         elif name == "serve_b":
             ev.append({"e": "serve_b", "k": int(a[0]), "boundary": True, "cont": True})
         elif name == "serve_e":
-            sv = served[si] if si < len(served) else {"steps": int(a[0]), "boundary": True, "cont": True}
-            si += 1
-            ev.append({"e": "serve_e", "k": int(a[0]), "boundary": bool(sv["boundary"]) and sv["steps"] == int(a[0]), "cont": bool(sv["cont"])})
+            # the body that belongs to this serve event: the next one received that carries this step count (a response the client
+            # lost -- time-out under load -- leaves a serve event without a body; it must not shift the pairing of the others)
+            k_ = int(a[0])
+            j = next((q for q in range(si, len(served)) if served[q]["steps"] == k_), None)
+            if j is None:
+                unmatched_events += 1
+                ev.append({"e": "serve_e", "k": k_, "boundary": True, "cont": True})
+            else:
+                skipped_bodies += [served[q] for q in range(si, j)]
+                sv = served[j]
+                si = j + 1
+                ev.append({"e": "serve_e", "k": k_, "boundary": bool(sv["boundary"]), "cont": bool(sv["cont"])})
         elif name == "step":
             ev.append({"e": "step", "k": int(a[3]), "boundary": True, "cont": True})
         elif name in ("hb_b", "hb_e"):
             if crit_seen:           # the heartbeat before the first step runs before the loop (no lock involved)
                 ev.append({"e": name, "k": int(a[0]), "boundary": True, "cont": True})
-    return {"cfg": cfg, "exact": exact, "tmax": tmax, "yield": yield_site, "events": ev, "transparent": run_final == ref_final,
+    skipped_bodies += served[si:]
+    # (a body that no serve event accounts for is judged on its own by the caller: a boundary state that continues bit for bit)
+    return {"cfg": cfg, "exact": exact, "tmax": tmax, "yield": yield_site, "events": ev, "transparent": run_final == ref_final, "serve_events_without_body": unmatched_events,
+            "bodies_without_serve_event": skipped_bodies[:20],
             "nserved": len(served), "served": served[:40], "ref_steps": ref_steps}
 
 
